@@ -627,6 +627,7 @@ macro_rules! do_step {
             }
             // ---- queries ----
             "?e" => res_bool($e.enforce(parse_vals(f[1]))),
+            "?em" => res_bool($e.enforce_mut(parse_vals(f[1]))),
             "?ec" => res_bool($e.enforce_with_context(casbin::EnforceContext::new(&dec(f[1])), parse_vals(f[2]))),
             "?c4" => res_bool($e.enforce_with_context(
                 casbin::EnforceContext { r_type: dec(f[1]), p_type: dec(f[2]), e_type: dec(f[3]), m_type: dec(f[4]) },
